@@ -33,4 +33,19 @@ PROPS = {
                         "AES block primitive inverse law is assumed (hypothesis of C08_cbc_dec_enc / C08_aes_roundtrip)",
                         "SecureField.to_python shape checks are covered with the fields stream (C05/C03), not here"],
     },
+    "C18": {
+        "streams": ["merge", "includes"],
+        "witnesses": ["F19"],
+        "rule": ("merge: 36-case matrix over {absent, leaf, null, empty map, map, map'} x same under one key, plus seeded random "
+                 "tree pairs (depth <= 3) -- non-trivial = the two trees share a key; includes: 5 schema shapes (root / two "
+                 "includes / nested / doubly nested / no start dir) x random documents and 4 real JSON files per case, with "
+                 "missing, invalid, non-string and absolute names -- non-trivial = at least one include resolves"),
+        "trusted_base": [KERNEL, "Print Assumptions: closed under the global context (no axioms)", TIE, HARNESS,
+                         "modelled, not verified: file-name validation + open + parse of an included file is an oracle "
+                         "(Section variable load_file) answered per case from os.path/json directly",
+                         "purity of combine_trees (inputs not mutated) cannot be expressed over immutable trees: decided by "
+                         "deep-copy comparison on the implementation in every merge case"],
+        "assumptions": ["dict keys of the included tree are distinct (NoDup hypothesis; true of every Python dict)",
+                        "the third-party parsers are trusted to parse what they are given"],
+    },
 }
